@@ -74,8 +74,11 @@ theorem gSwap_eq (kind : Kind) (a b : PTable) : gSwap kind a b = some (PTable.sw
   · exact gen_pool_swap a b
 
 /-- One step of the machine with the translated bodies is the step of the pointer-level model, on every pair of tables
-    that represents a model state (as every reachable one does), for every operation, container kind and hash function. -/
-theorem gstep_eq_pstep (kind : Kind) (h : Nat → Nat) (ps : PState) (s : State) (op : Op) (hp : PRel ps s) (hs : SInv h s) :
+    that represents a model state (as every reachable one does) and carries the default capacity of the current header (the
+    translated default / copy constructor writes the literal of the header, the model its class-constant field), for every
+    operation – constructors included –, container kind and hash function. -/
+theorem gstep_eq_pstep (kind : Kind) (h : Nat → Nat) (ps : PState) (s : State) (op : Op) (hp : PRel ps s) (hs : SInv h s)
+    (hd : ∀ t, (ps.get t).dcap = dcapOf kind) :
     gstep kind h ps op = pstep kind h ps op := by
   by_cases hav0 : op.available kind = false
   · simp [gstep, pstep, hav0]
@@ -221,17 +224,39 @@ theorem gstep_eq_pstep (kind : Kind) (h : Nat → Nat) (ps : PState) (s : State)
     by_cases hk : kind = Kind.set
     · subst hk; simp only [if_true, gen_set_removeSelf hr (hs.get t)]
     · simp only [hk, if_false]
+  | construct t cap =>
+    simp only [gstep, pstep, hav, Bool.not_true, Bool.false_eq_true, if_false]
+    cases kind <;> simp [optSet, gen_map_construct, gen_set_construct, gen_pool_construct]
+  | constructDefault t =>
+    have hdt := hd t
+    simp only [gstep, pstep, hav, Bool.not_true, Bool.false_eq_true, if_false]
+    cases kind <;>
+      simp [optSet, gen_map_constructDefault, gen_set_constructDefault, gen_pool_constructDefault, PTable.constructDefault,
+        hdt, dcapOf] <;> (rw [hdt]; rfl)
+  | copyFrom t =>
+    obtain ⟨hr, hself⟩ := hp.get (!t)
+    have hk : 0 < (ps.get (!t)).ipb := by rw [hr.ipb]; exact (hs.get (!t)).ipb_pos
+    have hdo := hd (!t)
+    simp only [gstep, pstep, hav, Bool.not_true, Bool.false_eq_true, if_false]
+    cases kind
+    · simp only [gen_map_copyConstruct h t 0 _ hdo hk]
+    · simp only [gen_set_copyConstruct h t 0 _ hdo hk]
+    · rfl
   | _ => simp [gstep, hav]
-/-- … hence every run from a represented state: the same final state, the same results, rejected iff the model rejects. -/
-theorem grun_eq_prun (kind : Kind) (h : Nat → Nat) (ops : List Op) (ps : PState) (s : State) (hp : PRel ps s) (hs : SInv h s) :
+/-- … hence every run from a represented state whose tables carry the default capacity of the current header (`CInv`, kept by
+    every step): the same final state, the same results, rejected iff the model rejects. -/
+theorem grun_eq_prun (kind : Kind) (h : Nat → Nat) (ops : List Op) (ps : PState) (s : State) (hp : PRel ps s) (hs : SInv h s)
+    (ipb : Nat) (hc : CInv (ipb, dcapOf kind) s) :
     grun kind h ps ops = prun kind h ps ops := by
   induction ops generalizing ps s with
   | nil => rfl
   | cons op ops ih =>
     have h1 := pstep_sim kind h ps s op hp hs
     have h2 := (step_refines kind h s op hs).2
+    have hd : ∀ t, (ps.get t).dcap = dcapOf kind := fun t => by
+      rw [(hp.get t).1.dcap]; exact congrArg Prod.snd (hc.get t)
     simp only [grun, prun]
-    rw [gstep_eq_pstep kind h ps s op hp hs]
+    rw [gstep_eq_pstep kind h ps s op hp hs hd]
     unfold StepSim at h1
     cases hps : pstep kind h ps op with
     | none => rfl
@@ -244,19 +269,21 @@ theorem grun_eq_prun (kind : Kind) (h : Nat → Nat) (ops : List Op) (ps : PStat
         obtain ⟨ps1, o⟩ := pr
         obtain ⟨s1, o'⟩ := r
         simp only at h1 ⊢
-        rw [ih ps1 s1 h1.2 (h2 s1 o' hst)]
+        rw [ih ps1 s1 h1.2 (h2 s1 o' hst) (step_consts kind h _ s s1 op o' hc hst)]
         cases prun kind h ps1 ops <;> rfl
 
 /-- The refinement theorem for the code as written in the headers: for every container kind, hash function, block size,
-    default capacity, pair of capacities and operation history, the machine that executes the translated `insert` / `remove` /
+    pair of capacities and operation history (the default capacity is the header's), the machine that executes the translated `insert` / `remove` /
     `clear` / `swap` / `find` bodies returns exactly the results of the insertion-ordered association list and rejects
     exactly the histories it rejects. -/
-theorem gen_refines (kind : Kind) (h : Nat → Nat) (ipb dcap : Nat) (hk : 0 < ipb) (hd : 0 < dcap) (c0 c1 : Nat) (ops : List Op) :
-    (grun kind h ⟨PTable.construct false ipb dcap c0, PTable.construct true ipb dcap c1⟩ ops).map (fun r => r.2)
+theorem gen_refines (kind : Kind) (h : Nat → Nat) (ipb : Nat) (hk : 0 < ipb) (c0 c1 : Nat) (ops : List Op) :
+    (grun kind h ⟨PTable.construct false ipb (dcapOf kind) c0, PTable.construct true ipb (dcapOf kind) c1⟩ ops).map (fun r => r.2)
       = (Spec.run kind Spec.init ops).map (fun r => r.2) := by
-  rw [grun_eq_prun kind h ops _ ⟨Table.construct ipb dcap c0, Table.construct ipb dcap c1⟩
-    ⟨fresh_rel false _ _ _, fresh_rel true _ _ _, rfl, rfl⟩ (inv_construct h ipb dcap hk hd c0 c1)]
-  exact ptr_refines_every_capacity kind h ipb dcap hk hd c0 c1 ops
+  have hd : 0 < dcapOf kind := by cases kind <;> decide
+  rw [grun_eq_prun kind h ops _ ⟨Table.construct ipb (dcapOf kind) c0, Table.construct ipb (dcapOf kind) c1⟩
+    ⟨fresh_rel false _ _ _, fresh_rel true _ _ _, rfl, rfl⟩ (inv_construct h ipb (dcapOf kind) hk hd c0 c1) ipb ⟨rfl, rfl⟩]
+  exact ptr_refines_every_capacity kind h ipb (dcapOf kind) hk hd c0 c1 ops
+
 /-- non-vacuity / a concrete run of the translated bodies: one bucket (all keys collide), removal from the middle of the
     chain, a positional insert, an existing key, a lookup, swap with the other table, iteration -/
 example :
